@@ -61,11 +61,13 @@ end
 
 /-! ### binomial coverage and the minimum p table -/
 
+/-- row n of Pascal's triangle: row 0 = [1], row (n+1) = (0 :: row n) + (row n ++ [0]) -/
+def pascalRow : Nat → List Nat
+  | 0 => [1]
+  | n + 1 => List.zipWith (· + ·) (0 :: pascalRow n) (pascalRow n ++ [0])
+
 /-- C(n,k) by Pascal's rule -/
-def choose : Nat → Nat → Nat
-  | _, 0 => 1
-  | 0, _ + 1 => 0
-  | n + 1, k + 1 => choose n k + choose n (k + 1)
+def choose (n k : Nat) : Nat := (pascalRow n).getD k 0
 
 /-- exact probability that the population median lies between the lo-th and hi-th order statistic
 (1-based; 0 and n+1 stand for −∞ and +∞): Σ_{k=lo}^{hi−1} C(n,k) / 2ⁿ -/
@@ -218,7 +220,8 @@ def judgeNothing (vals : List F64.Bits) (conf : F64.Bits) (qlo qhi : Nat) (i : I
       if n % 2 == 1 then okIf (some c == xs[n / 2]?) "not-the-median"
       else match xs[n / 2 - 1]?, xs[n / 2]? with
         | some a, some b =>
-          let tol := rmax (rabs a) (rabs b) / pow2 52
+          -- one rounding of b − a, one of the sum; half a subnormal step where 0.5·(b − a) is subnormal
+          let tol := rmax (rabs a) (rabs b) / pow2 52 + 1 / pow2 1074
           okIf (rabs (c - (a + b) / 2) ≤ tol) "not-the-median"
         | _, _ => "empty"
     | _ => "not-finite"
@@ -252,7 +255,7 @@ def judgeNormal (vals : List F64.Bits) (conf : F64.Bits) (i : ImplSummary) : Str
   let mean : Rat := xs.foldl (· + ·) 0 / ((n : Nat) : Rat)
   let mx := (xs.map rabs).foldl rmax 0
   let centre := match ev i.center with
-    | .fin c => okIf (rabs (c - mean) ≤ (meanUlps : Nat) * mx / pow2 52) "not-the-mean"
+    | .fin c => okIf (rabs (c - mean) ≤ (meanUlps : Nat) * mx / pow2 52 + (n : Nat) / pow2 1074) "not-the-mean"
     | _ => "not-finite"
   -- t interval: symmetric about the mean (its half-width, a t quantile, is not judged here)
   let ends := match ev i.lo, ev i.center, ev i.hi with
